@@ -175,6 +175,11 @@ restart:
 
 void tickit_rectset_subtract(TickitRectSet *trs, const TickitRect *rect)
 {
+  /* An empty hole removes nothing; going on would split members around it
+   * into pieces that cover the same area again, for ever */
+  if(rect->lines <= 0 || rect->cols <= 0)
+    return;
+
   for(int i = 0; i < trs->count; i++) {
     TickitRect *r = trs->rects + i;
     if(!tickit_rect_intersects(r, rect))
